@@ -1,6 +1,6 @@
 //go:build verif
 
-package cri
+package cri_test
 
 import (
 	"context"
@@ -9,12 +9,15 @@ import (
 	"errors"
 	"fmt"
 	"strings"
+	"sync"
 	"testing"
 	"time"
 
 	"github.com/containerd/containerd/v2/pkg/reference"
 	"github.com/containerd/log"
 	"github.com/containerd/stargz-snapshotter/internal/verifutil"
+	"github.com/containerd/stargz-snapshotter/service/keychain/cri"
+	distribution "github.com/distribution/reference"
 	"google.golang.org/grpc"
 	runtime "k8s.io/cri-api/pkg/apis/runtime/v1"
 )
@@ -41,6 +44,23 @@ func (b *verifC18Backend) RemoveImage(ctx context.Context, in *runtime.RemoveIma
 		return nil, errors.New("verif: backend remove failed")
 	}
 	return &runtime.RemoveImageResponse{}, nil
+}
+
+func (b *verifC18Backend) ImageFsInfo(context.Context, *runtime.ImageFsInfoRequest, ...grpc.CallOption) (*runtime.ImageFsInfoResponse, error) {
+	return &runtime.ImageFsInfoResponse{}, nil
+}
+
+// verifC18WaitConnected polls the PUBLIC image service until it forwards to the backend.
+func verifC18WaitConnected(srv runtime.ImageServiceServer) {
+	for i := 0; ; i++ {
+		if _, err := srv.ImageFsInfo(context.Background(), &runtime.ImageFsInfoRequest{}); err == nil {
+			return
+		}
+		if i > 5000 {
+			panic("verif: keychain never connected to the backend")
+		}
+		time.Sleep(time.Millisecond)
+	}
 }
 
 // ---- generated inputs; everything the oracle needs is known BY CONSTRUCTION ----
@@ -102,7 +122,11 @@ type verifC18Auth struct {
 	cfg          *runtime.AuthConfig
 	user, secret string
 	formErr      bool   // the auth form itself is malformed (bad base64 / no colon)
-	denotes      string // host the server address denotes; "" = none given; "-" = denotes no host; "!" = unparsable
+	denotes      string // host the server address denotes; "" = none given; "!" = unparsable
+	// ambiguous: an address without scheme.  The code under test gives it to nobody today (url.Parse
+	// finds no host in it); reading it as "host[:port]" would be just as confined.  Answers that
+	// depend on such an address are judged by the oracle only, not compared with the model.
+	ambiguous bool
 }
 
 func verifC18B64(s string) string { return base64.StdEncoding.EncodeToString([]byte(s)) }
@@ -174,9 +198,9 @@ func verifC18Addr(rnd *verifutil.Rand, host string) (string, string) {
 	case 7:
 		return "https://user:pw@" + host + "/?q=1#frag", host
 	case 8:
-		return host, "-" // no scheme: url.Parse puts it into Path, Host is empty
+		return host, "~" + host // no scheme: url.Parse puts it into Path, Host is empty
 	case 9:
-		return host + ":5000", "-" // "host:5000" parses as scheme "host" with opaque "5000" (or an error for an IP)
+		return host + ":5000", "~" + host + ":5000" // parses as scheme "host" with opaque "5000": no Host
 	case 10:
 		return "https://other.example.com", "other.example.com"
 	case 11:
@@ -217,8 +241,15 @@ func verifC18AuthLine(a *runtime.AuthConfig) string {
 		verifC18Hex(a.Auth), verifC18Hex(a.ServerAddress), verifC18Hex(a.IdentityToken), verifC18Hex(a.RegistryToken))
 }
 
+// verifC18Key is the normalisation the keychain theorems take as a parameter
+// (distribution.ParseDockerRef followed by containerd's reference.Parse), computed with the public
+// libraries.  That the keychain keys its map this way is observed through its answers only.
 func verifC18Key(image string) string {
-	spec, err := parseReference(image)
+	named, err := distribution.ParseDockerRef(image)
+	if err != nil {
+		return "key=!"
+	}
+	spec, err := reference.Parse(named.String())
 	if err != nil {
 		return "key=!"
 	}
@@ -248,7 +279,7 @@ type verifC18KC struct {
 func verifC18NewKC(out *verifutil.Out) *verifC18KC {
 	k := &verifC18KC{out: out, backend: &verifC18Backend{}, release: make(chan struct{}),
 		shadow: map[string]*verifC18Entry{}, repos: map[string]bool{}}
-	k.creds, k.srv = NewCRIKeychain(context.Background(), func() (runtime.ImageServiceClient, error) {
+	k.creds, k.srv = cri.NewCRIKeychain(context.Background(), func() (runtime.ImageServiceClient, error) {
 		<-k.release
 		return k.backend, nil
 	})
@@ -261,13 +292,7 @@ func (k *verifC18KC) connect() {
 		return
 	}
 	close(k.release)
-	in := k.srv.(*instrumentedService)
-	for i := 0; in.getCRI() == nil; i++ {
-		if i > 5000 {
-			panic("verif: keychain never connected to the backend")
-		}
-		time.Sleep(time.Millisecond)
-	}
+	verifC18WaitConnected(k.srv)
 	k.connected = true
 	k.out.Emit("k.connect", "ok")
 	k.shape.WriteString("c")
@@ -345,7 +370,12 @@ func (k *verifC18KC) query(host, ref string) {
 	} else if u != "" || s != "" {
 		k.out.Fail("creds-returned-with-error", fmt.Sprintf("credentials(%q,%q) returned an error AND (%q,%q)", host, ref, u, s))
 	}
-	k.out.Emit(fmt.Sprintf("k.query %s %s", verifC18Hex(host), verifC18Hex(spec.String())), res)
+	if e := k.shadow[spec.String()]; e != nil && !e.removed && e.auth.ambiguous {
+		k.out.Comment(fmt.Sprintf("k.query %s %s (scheme-less server address: oracle only) -> %s", verifC18Hex(host), verifC18Hex(spec.String()), res))
+		k.out.Count("query-oracle-only")
+	} else {
+		k.out.Emit(fmt.Sprintf("k.query %s %s", verifC18Hex(host), verifC18Hex(spec.String())), res)
+	}
 	k.out.Count("op-query")
 	k.shape.WriteString("q")
 	if err != nil || (u == "" && s == "") {
@@ -399,6 +429,9 @@ func verifC18WithAddr(a verifC18Auth, addr, denotes string) verifC18Auth {
 	c := *a.cfg
 	c.ServerAddress = addr
 	a.cfg = &c
+	if strings.HasPrefix(denotes, "~") {
+		denotes, a.ambiguous = denotes[1:], true
+	}
 	a.denotes = denotes
 	return a
 }
@@ -424,7 +457,7 @@ func TestVerifC18Keychain(t *testing.T) {
 					key := verifC18Key(img.raw)
 					out.Emit("norm "+verifC18Hex(img.raw), key)
 					if key != "key="+verifC18Hex(img.canon) {
-						out.Fail("normalisation-not-docker-convention", fmt.Sprintf("parseReference(%q) gives %s, the docker convention says %q", img.raw, key, img.canon))
+						out.Fail("normalisation-not-docker-convention", fmt.Sprintf("ParseDockerRef+reference.Parse(%q) gives %s, the docker convention says %q", img.raw, key, img.canon))
 					}
 				}
 			}
@@ -483,7 +516,14 @@ func TestVerifC18Keychain(t *testing.T) {
 		k.pull(app2, verifC18WithAddr(verifC18UserPw("x", "x"), "https://other.example.com", "other.example.com"), true)
 		k.query("reg.example.com", app2.canon)
 		k.query("other.example.com", app2.canon)
-		k.pull(appDg, verifC18WithAddr(verifC18UserPw("d", "d"), "reg.example.com", "-"), true)
+		k.pull(appDg, verifC18WithAddr(verifC18UserPw("d", "d"), "reg.example.com", "~reg.example.com"), true)
+		k.query("reg.example.com", appDg.canon)
+		k.query("other.example.com", appDg.canon)
+		// scheme-less host:port of ANOTHER registry: must not open the credentials to this host
+		k.pull(appDg, verifC18WithAddr(verifC18UserPw("pp", "pp"), "private.example.com:5000", "~private.example.com:5000"), true)
+		k.query("reg.example.com", appDg.canon)
+		k.query("private.example.com", appDg.canon)
+		k.pull(appDg, verifC18WithAddr(verifC18UserPw("lh", "lh"), "localhost:5000", "~localhost:5000"), true)
 		k.query("reg.example.com", appDg.canon)
 		k.pull(app1, verifC18WithAddr(verifC18UserPw("e", "e"), "1.2.3.4:5000", "!"), true)
 		k.query("reg.example.com", app1.canon)
@@ -578,5 +618,112 @@ func TestVerifC18Keychain(t *testing.T) {
 			}
 		}
 		k.close()
+	}
+}
+
+// ---- concurrent use (built with -race): the detector observes any unsynchronised access to the
+// keychain's state; the oracle checks that concurrency does not mix up references ----
+
+type verifC18ConcBackend struct{ runtime.ImageServiceClient }
+
+func (verifC18ConcBackend) PullImage(_ context.Context, in *runtime.PullImageRequest, _ ...grpc.CallOption) (*runtime.PullImageResponse, error) {
+	return &runtime.PullImageResponse{ImageRef: in.GetImage().GetImage()}, nil
+}
+func (verifC18ConcBackend) RemoveImage(context.Context, *runtime.RemoveImageRequest, ...grpc.CallOption) (*runtime.RemoveImageResponse, error) {
+	return &runtime.RemoveImageResponse{}, nil
+}
+func (verifC18ConcBackend) ImageFsInfo(context.Context, *runtime.ImageFsInfoRequest, ...grpc.CallOption) (*runtime.ImageFsInfoResponse, error) {
+	return &runtime.ImageFsInfoResponse{}, nil
+}
+
+// TestVerifC18KeychainConc: G goroutines issue PullImage / RemoveImage / credential queries at the
+// same time.  Each goroutine owns a few references (its own requests on them are sequential, so the
+// sequential predicate must hold for them whatever the others do) and all of them also hammer one
+// shared reference (the answer must be empty or the credentials of SOME pull of that reference).
+func TestVerifC18KeychainConc(t *testing.T) {
+	log.SetLevel("error")
+	out := verifutil.OpenOut()
+	defer out.Close()
+	rounds := verifutil.EnvInt("VERIF_N", 20)
+	const G = 8
+	for round := 0; round < rounds; round++ {
+		creds, srv := cri.NewCRIKeychain(context.Background(), func() (runtime.ImageServiceClient, error) {
+			return verifC18ConcBackend{}, nil
+		})
+		verifC18WaitConnected(srv)
+		shared := "reg.example.com/shared/img:v1"
+		sharedSpec, _ := reference.Parse(shared)
+		var issued sync.Map // "user/secret" ever sent in a pull of the shared reference
+		var wg sync.WaitGroup
+		for g := 0; g < G; g++ {
+			wg.Add(1)
+			go func(g int) {
+				defer wg.Done()
+				rnd := verifutil.NewRand((verifutil.Seed()*1000003+1803)*uint64(rounds+1)*G + uint64(round*G+g))
+				type own struct {
+					raw, canon   string
+					user, secret string
+					present      bool
+				}
+				refs := make([]*own, 3)
+				for i := range refs {
+					// the raw spelling differs from the canonical reference (alias domain, default tag)
+					refs[i] = &own{raw: fmt.Sprintf("index.docker.io/g%d/img%d", g, i), canon: fmt.Sprintf("docker.io/g%d/img%d:latest", g, i)}
+				}
+				hosts := []string{"docker.io", "registry-1.docker.io", "index.docker.io"}
+				for i := 0; i < 150; i++ {
+					r := refs[rnd.Intn(len(refs))]
+					switch rnd.Pick(3, 1, 5, 2, 2) {
+					case 0:
+						u, s := fmt.Sprintf("u%d.%d", g, i), fmt.Sprintf("s%d.%d", g, i)
+						if _, err := srv.PullImage(context.Background(), &runtime.PullImageRequest{Image: &runtime.ImageSpec{Image: r.raw},
+							Auth: &runtime.AuthConfig{Username: u, Password: s, ServerAddress: "https://index.docker.io/v1/"}}); err != nil {
+							out.Fail("conc-pull-failed", fmt.Sprintf("round %d goroutine %d op %d: PullImage(%q): %v", round, g, i, r.raw, err))
+						}
+						r.user, r.secret, r.present = u, s, true
+					case 1:
+						if _, err := srv.RemoveImage(context.Background(), &runtime.RemoveImageRequest{Image: &runtime.ImageSpec{Image: r.raw}}); err != nil {
+							out.Fail("conc-remove-failed", fmt.Sprintf("round %d goroutine %d op %d: RemoveImage(%q): %v", round, g, i, r.raw, err))
+						}
+						r.present = false
+					case 2:
+						spec, _ := reference.Parse(r.canon)
+						u, s, err := creds(hosts[rnd.Intn(len(hosts))], spec)
+						wu, ws := "", ""
+						if r.present {
+							wu, ws = r.user, r.secret
+						}
+						if err != nil || u != wu || s != ws {
+							sig := "conc-creds-not-of-latest-pull"
+							if !r.present {
+								sig = "conc-creds-after-remove-or-without-pull"
+							}
+							out.Fail(sig, fmt.Sprintf("round %d goroutine %d op %d: credentials(%q) = (%q,%q,%v) while %d other goroutines run; this goroutine's own last request on the reference leaves (%q,%q)",
+								round, g, i, r.canon, u, s, err, G-1, wu, ws))
+						}
+					case 3:
+						u, s := fmt.Sprintf("sh%d.%d", g, i), fmt.Sprintf("x%d.%d", g, i)
+						issued.Store(u+"/"+s, true)
+						if rnd.Intn(4) == 0 {
+							srv.RemoveImage(context.Background(), &runtime.RemoveImageRequest{Image: &runtime.ImageSpec{Image: shared}})
+						} else {
+							srv.PullImage(context.Background(), &runtime.PullImageRequest{Image: &runtime.ImageSpec{Image: shared}, Auth: &runtime.AuthConfig{Username: u, Password: s}})
+						}
+					case 4:
+						u, s, err := creds("reg.example.com", sharedSpec)
+						if err != nil {
+							out.Fail("conc-creds-error", fmt.Sprintf("round %d goroutine %d op %d: credentials(shared) failed: %v", round, g, i, err))
+						} else if u != "" || s != "" {
+							if _, ok := issued.Load(u + "/" + s); !ok {
+								out.Fail("conc-creds-from-nowhere", fmt.Sprintf("round %d goroutine %d op %d: credentials(shared) = (%q,%q), which no pull of that reference carried", round, g, i, u, s))
+							}
+						}
+					}
+					out.Count("conc-op")
+				}
+			}(g)
+		}
+		wg.Wait()
+		out.Distinct(fmt.Sprintf("conc-round-%d", round))
 	}
 }
